@@ -14,8 +14,8 @@ for d in sorted(glob.glob(os.path.join(HERE, 'seeded', 'refactors', '*'))):
     lines = [l for l in txt.splitlines() if l.startswith('check')]
     last = lines[-1] if lines else ''
     false_alarm = 'false alarm' in txt.lower()
-    m = re.search(r'\b(HOLDS|VIOLATION|INCONCLUSIVE)\b', last.split('::')[-1] if '::' in last else last.split('):')[-1])
-    verdict = m.group(1) if m else 'no verdict within the time limit (treated as INCONCLUSIVE)'
+    ms = re.findall(r'\b(HOLDS|VIOLATION|INCONCLUSIVE) property', last) or re.findall(r'\b(HOLDS|INCONCLUSIVE)\b', last)
+    verdict = ms[-1] if ms else 'no verdict within the time limit (treated as INCONCLUSIVE)'
     why = ''
     if verdict == 'INCONCLUSIVE':
         r = re.search(r'reason=([^\n]*)', last)
